@@ -75,6 +75,13 @@ POSITIONS = {
     'member_base': _in_fn(lambda b, e: [b.expr_stmt(b.member(fit(b, e, 0), 'm'))]),
     'unchecked_block': _in_fn(lambda b, e: [b.block([b.expr_stmt(e)], unchecked=True)]),
     'nested_block': _in_fn(lambda b, e: [b.block([b.block([b.expr_stmt(e)])])]),
+    'unchecked_if_body': _in_fn(lambda b, e: [b.block([b.if_(b.var('c'), b.block([b.expr_stmt(e)]), b.block([b.expr_stmt(b.var('d'))]))], unchecked=True)]),
+    'unchecked_initialiser': _in_fn(lambda b, e: [b.block([b.var_stmt(u256(b), 'm', e)], unchecked=True)]),
+    'unchecked_nested_block': _in_fn(lambda b, e: [b.block([b.block([b.expr_stmt(e)])], unchecked=True)]),
+    'unchecked_return': _in_fn(lambda b, e: [b.block([b.ret(e)], unchecked=True)]),
+    'unchecked_for_update': _in_fn(lambda b, e: [b.block([b.for_(None, None, b.expr_stmt(e), b.block([]))], unchecked=True)]),
+    'unchecked_inside_checked_inside_unchecked': _in_fn(lambda b, e: [b.block([b.block([b.block([b.expr_stmt(e)], unchecked=True)])], unchecked=True)]),
+    'checked_block_after_unchecked': _in_fn(lambda b, e: [b.block([b.expr_stmt(b.var('d'))], unchecked=True), b.block([b.expr_stmt(e)])]),
     'try_call_argument': _in_fn(lambda b, e: [b.try_(b.call(b.member(b.this(), 'g'), [e]), None,
                                                      [b.catch_simple(None, b.block([]))])]),
     'try_success_body': _in_fn(lambda b, e: [b.try_(b.call(b.member(b.this(), 'g'), []), ([b.param(u256(b), None, 'r')], b.block([b.expr_stmt(e)])),
@@ -108,7 +115,7 @@ for _k, _v in POSITIONS.items():
 # positions whose scaffolding changes what a detector must say about the slot expression are handled by the oracle's
 # context (unchecked_block, for_condition); all others are neutral.
 QUICK_POSITIONS = ['statement', 'initialiser', 'if_condition', 'for_condition', 'call_argument', 'power_exponent',
-                   'prefix_increment_operand', 'unchecked_block', 'catch_body', 'modifier_argument',
+                   'prefix_increment_operand', 'unchecked_block', 'unchecked_if_body', 'unchecked_initialiser', 'catch_body', 'modifier_argument',
                    'state_variable_initialiser', 'free_function_body', 'ternary_branch', 'second_contract']
 
 
@@ -236,6 +243,9 @@ def forms_for(detector, b):
               ('x.approve.y', b.member(b.member(v('x'), 'approve'), 'y'))]
     elif detector == 'divide_before_multiply':
         F = divide_before_multiply_forms(b)
+    elif detector == 'divide_before_multiply:spines':
+        # every left spine of up to 3 steps over the operators the chain rule mentions
+        F = spine_forms(b, 3)
     return F
 
 
@@ -283,6 +293,45 @@ def divide_before_multiply_forms(b):
           ('x /= -(2 * 3)', ad(b.un('UnaryMinus', p(m(n(2), n(3)))))),
           ('x /= (2 * 3) ** 2', ad(b.bin('Power', p(m(n(2), n(3))), n(2))))]
     return F
+
+
+def spine_forms(b, depth):
+    """`<spine> * z` and `x /= <spine>` for every precedence-valid left spine of `depth` steps; a step is an operator whose LEFT
+    operand continues the spine (right operands are leaves) or a pair of parentheses"""
+    import itertools
+    steps = ['Multiply', 'Divide', 'Add', 'Subtract', 'Modulo', 'BitwiseAnd', 'ShiftLeft', 'Parenthesis']
+    out = []
+
+    def build(seq):
+        e = b.var('leaf')
+        for k in reversed(seq):
+            if k == 'Parenthesis':
+                e = b.paren(e)
+            else:
+                l_max, _ = sol.operand_levels(k)
+                if sol.level(e) > l_max:
+                    return None
+                e = b.bin(k, e, b.num(2))
+        return e
+
+    def text(seq):
+        t = 'leaf'
+        for k in reversed(seq):
+            t = '(%s)' % t if k == 'Parenthesis' else '%s %s 2' % (t, sol.BINOPS[k])
+        return t
+    for n in range(1, depth + 1):
+        for seq in itertools.product(steps, repeat=n):
+            if any(a == b_ == 'Parenthesis' for a, b_ in zip(seq, seq[1:])) and n > 2:
+                continue
+            if not ('Divide' in seq or 'Multiply' in seq):
+                continue
+            e = build(seq)
+            if e is not None and sol.level(e) <= 4:
+                out.append(('%s * z' % text(seq), b.bin('Multiply', e, b.var('z'))))
+            e2 = build(seq)
+            if e2 is not None:
+                out.append(('x /= %s' % text(seq), b.bin('AssignDivide', b.var('x'), e2)))
+    return out
 
 
 # ---- running one case ---------------------------------------------------------------------------------------------------
@@ -347,9 +396,10 @@ def eval_cond(c, m):
 
 
 def native_verdict(chk, detector, su_conc, label, oracle_fn=None, meta=None):
-    """run the real detector on the printed file and compare with the (now concrete) oracle.
+    """run the real detector on the printed file and compare with the (now concrete) oracle. Locations are compared as
+    (start, end) pairs for expressions (two nested expressions can begin on the same byte) and by start otherwise.
     -> (text, native result fields, list of problems)"""
-    text, starts = sol.print_source(su_conc)
+    text, starts, ends = sol.print_source(su_conc, with_ends=True)
     path = chk.native.file(text)
     dbg, det = chk.native.run([['debugtree', path], ['detect', detector, path]])
     if dbg[0] != 'OK' or sol.strip_locs(unhex(dbg[1])) != sol.debug_render(su_conc, chk.world.types):
@@ -359,23 +409,32 @@ def native_verdict(chk, detector, su_conc, label, oracle_fn=None, meta=None):
         msg = det[1] if len(det) > 1 else str(det)
         problems.append('panic[%s]: %s' % (panic_role(msg), msg))
         return text, det, problems
-    got = sorted({int(x.split(':')[0]) for x in det[1].split(',') if x})
+    got = sorted({(int(x.split(':')[0]), int(x.split(':')[1])) for x in det[1].split(',') if x})
+    got_starts = {g[0] for g in got}
     cls = oracle.classify_file(detector, su_conc, oracle_fn, meta)
+
+    def reported(lid):
+        if lid in ends and lid in starts:
+            return (starts[lid], ends[lid]) in got
+        return starts.get(lid) in got_starts
     by_start = {}
     for node, lid, flag, never in cls:
         if lid is None or lid not in starts:
             continue
-        by_start.setdefault(starts[lid], []).append((flag, never, node))
+        by_start.setdefault(starts[lid], []).append((flag, never, node, lid))
     for node, lid, flag, never in cls:
-        if flag is True and starts.get(lid) not in got:
+        if flag is True and not reported(lid):
             problems.append('missed[%s]: canonical %s at byte %s is not reported' % (shape(node), node.variant, starts.get(lid)))
     for g in got:
-        entries = by_start.get(g)
+        entries = by_start.get(g[0])
+        exact = [x for x in entries or [] if x[3] in ends and ends[x[3]] == g[1]]
+        if exact:
+            entries = exact
         if not entries:
-            problems.append('spurious[unknown-location]: byte %d reported, no construct of the pattern begins there' % g)
-        elif all(never is True for _, never, _ in entries):
-            nd = [n for _, _, n in entries if n.ty == 'Expression' and n.variant != 'Parenthesis'] or [entries[0][2]]
-            problems.append('spurious[%s]: %s at byte %d reported, clearly not the pattern' % (shape(nd[0]), nd[0].variant, g))
+            problems.append('spurious[unknown-location]: byte %d reported, no construct of the pattern begins there' % g[0])
+        elif all(never is True for _, never, _, _ in entries):
+            nd = [n for _, _, n, _ in entries if n.ty == 'Expression' and n.variant != 'Parenthesis'] or [entries[0][2]]
+            problems.append('spurious[%s]: %s at byte %d reported, clearly not the pattern' % (shape(nd[0]), nd[0].variant, g[0]))
     return text, det, problems
 
 
@@ -469,11 +528,11 @@ def run_case(chk, engine, detector, su, label, loc_names, oracle_fn=None, confir
             # translator validation of this path: predicted starts == what the real code returns
             conc = concrete_file(su, r.choices, model_with(s))
             try:
-                text, starts = sol.print_source(conc)
+                text, starts, ends = sol.print_source(conc, with_ends=True)
             except sol.PrintError as pe:
                 chk.undecide('%s [%s]: cannot print (%s)' % (detector, label, pe))
                 continue
-            pred = sorted({starts[i] for i in ids})
+            pred = sorted({(starts[i], ends.get(i, -1)) for i in ids})
             res.jobs.append((detector, label, text, pred, conc))
             continue
         # symbolic counterexample -> concrete file -> the real code decides
@@ -555,6 +614,12 @@ def flush_validation(chk, results):
             chk.extra_lists.setdefault('not_round_tripped', []).append('%s: %s' % (detector, label))
             continue
         chk.validated += 1
-        got = sorted({int(x.split(':')[0]) for x in det[1].split(',') if x}) if det[0] == 'OK' else det
+        if det[0] == 'OK':
+            pairs = {(int(x.split(':')[0]), int(x.split(':')[1])) for x in det[1].split(',') if x}
+            # ends are predicted for expressions only (-1 = compare the start alone)
+            got = sorted({(a, b_) if any(p[0] == a and p[1] == b_ for p in pred) or not any(p[0] == a and p[1] == -1 for p in pred) else (a, -1)
+                          for a, b_ in pairs})
+        else:
+            got = det
         if got != pred:
             chk.broken('%s [%s]: engine predicts starts %r, the real code returns %r on\n%s' % (detector, label, pred, got, text))
